@@ -45,7 +45,7 @@ def row_facts(row_at, lrow_at, rrow_at, guard, qvars, lcols, rcols, lkey, rkey, 
     return out
 
 
-def header_facts(header, lkey, rkey, louts, routs, lp, rp, with_id, score):
+def header_facts(header, lkey, rkey, louts, routs, lp, rp, with_id, score, assumed=False):
     """header = ['_id']? ++ [lp+lkey, rp+rkey] ++ lp+louts ++ rp+routs ++ ['_sim_score']?"""
     nl, nr = n_outs(louts), n_outs(routs)
     off = 1 if with_id else 0
@@ -56,14 +56,24 @@ def header_facts(header, lkey, rkey, louts, routs, lp, rp, with_id, score):
         at(header, off) == cat(lp, lkey), at(header, off + 1) == cat(rp, rkey)))]
     if with_id:
         fs.append(('header-id', at(header, 0) == strconst('_id')))
+    p = z3.Int('p!hdr')
     if louts is not None:
+        # as an assumption the by-index form must not create header terms (it would ping-pong with
+        # the by-position form): it fires only on an existing header element
         fs.append(('header-left-names', FA([j], z3.Implies(z3.And(j >= 0, j < nl),
                                                            at(header, off + 2 + j) == cat(lp, at(louts, j))),
-                                           [at(louts, j)])))
+                                           [z3.MultiPattern(at(louts, j), at(header, off + 2 + j))] if assumed
+                                           else [at(louts, j)])))
+        fs.append(('header-left-names-by-position', FA([p], z3.Implies(
+            z3.And(p >= off + 2, p < off + 2 + nl), at(header, p) == cat(lp, at(louts, p - off - 2))), [at(header, p)])))
     if routs is not None:
         fs.append(('header-right-names', FA([j], z3.Implies(z3.And(j >= 0, j < nr),
                                                             at(header, off + 2 + nl + j) == cat(rp, at(routs, j))),
-                                            [at(routs, j)])))
+                                            [z3.MultiPattern(at(routs, j), at(header, off + 2 + nl + j))] if assumed
+                                            else [at(routs, j)])))
+        fs.append(('header-right-names-by-position', FA([p], z3.Implies(
+            z3.And(p >= off + 2 + nl, p < off + 2 + nl + nr),
+            at(header, p) == cat(rp, at(routs, p - off - 2 - nl))), [at(header, p)])))
     if score:
         fs.append(('header-score', at(header, off + 2 + nl + nr) == strconst('_sim_score')))
     return fs
@@ -75,3 +85,16 @@ def attrs_in(outs, cols):
         return z3.BoolVal(True)
     j = z3.Int('j!ain')
     return FA([j], z3.Implies(z3.And(j >= 0, j < ln(outs)), S.in_list(cols, at(outs, j))), [at(outs, j)])
+
+
+def header_term(lkey, rkey, louts, routs, lp, rp, score):
+    """the header list as a term: out_header(...) with '_sim_score' appended iff score (a z3 Bool)"""
+    oh = S.out_header(lkey, rkey, None if louts is None else louts.t, None if routs is None else routs.t, lp, rp)
+    return z3.If(score, L_append(LV, oh, strconst('_sim_score')), oh)
+
+
+def out_header_theorem(lkey, rkey, louts, routs, lp, rp):
+    """elementwise characterisation of out_header(...): the universally quantified form of the
+    postcondition proved on generic_helper.get_output_header_from_tables"""
+    oh = V(LV, S.out_header(lkey, rkey, None if louts is None else louts.t, None if routs is None else routs.t, lp, rp))
+    return [f for (_, f) in header_facts(oh, lkey, rkey, louts, routs, lp, rp, False, False, assumed=True)]
